@@ -517,6 +517,7 @@ def _case_worker(job):
     n = shared = with_lets = with_agglets = with_scanlets = nontrivial = 0
     total_lets = 0
     viols = {}
+    vcount = {}
     sample = None
     for rt, term in E.programs(size, roots, opts, shard, nshards):
         n += 1
@@ -534,11 +535,12 @@ def _case_worker(job):
                           'agg_let': info['agglets'] + info['scanlets'] > 0}
         for sig, msg, mode in vs:
             key = sig if mode == 'api' else f'{sig}:{mode}-ir'
+            vcount[key] = vcount.get(key, 0) + 1
             if key not in viols:
                 viols[key] = (msg, {'term': term, 'agg': agg, 'mode': mode, 'size': size}, info['texts'].get(mode, ''))
     return {'job': job, 'n': n, 'shared': shared, 'with_lets': with_lets, 'with_agglets': with_agglets,
             'with_scanlets': with_scanlets, 'total_lets': total_lets, 'viols': viols, 'sample': sample,
-            'nontrivial': nontrivial}
+            'nontrivial': nontrivial, 'vcount': vcount}
 
 
 def plan(tier):
@@ -607,6 +609,8 @@ def check(tier, seed, procs):
         'programs_with_lifted_scan_let': with_scan,
         'lifted_lets_total': sum(r['total_lets'] for r in rows),
         'builds_per_program': list(MODES),
+        'violating_builds_per_signature': {k: sum(r['vcount'].get(k, 0) for r in rows)
+                                           for k in sorted({k for r in rows for k in r['vcount']})},
     }
     vac = None
     if with_lets < 10 or with_agg < 1 or with_scan < 1:
